@@ -33,7 +33,7 @@ func init() {
 			"crash = process death: every completed file-system call persists, nothing of a call not yet made does (no power-loss reordering of unsynced data)",
 			"the users/routes files exist before the history starts (so the default-administrator fallback is never legitimate)",
 		},
-		RequiredProbes: []string{"c18.crash-fired", "c18.torn-write-fired", "c18.error-fired"},
+		RequiredProbes: []string{"c18.crash-fired", "c18.torn-write-fired", "c18.error-fired", "c18.first-flush-creates-the-file"},
 	})
 }
 
@@ -218,8 +218,11 @@ func buildC18(tier string) sim.Scenario {
 		if tp.Bool() {
 			init0.apply(c18Op{Kind: "saveU", Name: "bob", Pw: "old", Pull: "/live/*"})
 		}
+		freshRoutes := false // a fresh installation: no route table file yet, the first flush creates it
 		if tp.Bool() {
 			init0.apply(c18Op{Kind: "saveR", Pattern: "/cam/1", URL: urls[0]})
+		} else {
+			freshRoutes = tp.Bool()
 		}
 		n := 3 + tp.Choose(8)
 		var ops []c18Op
@@ -276,6 +279,10 @@ func buildC18(tier string) sim.Scenario {
 			fs.Files[c18RoutesFile] = b
 		}
 		writeModel(image0, init0)
+		if freshRoutes {
+			delete(image0.Files, c18RoutesFile)
+			w.Probe("c18.first-flush-creates-the-file")
+		}
 
 		// run executes the history once under one fault plan.
 		run := func(ex c18Exec) (out c18Outcome) {
